@@ -14,11 +14,53 @@ MAX_DEPTH = 3
 
 
 def load_baseline():
+    """{printed path: signature key} of the functions the rule set was written against"""
     try:
         with open(BASELINE) as f:
-            return set(json.load(f))
+            b = json.load(f)
+            return b if isinstance(b, dict) else {p: None for p in b}
     except Exception:
         return None
+
+
+def _sig(fn):
+    from .mir import ty_str, strip_regions
+    return '(%s) -> %s' % (', '.join(ty_str(strip_regions(t)) for t in (fn.get('inputs') or [])), ty_str(strip_regions(fn.get('output'))) if fn.get('output') else '?')
+
+
+def undo_renames(facts, baseline):
+    """A private function of the reference tree that is missing now, while exactly one unknown function with the same
+    signature exists in the same module (or impl), has been *renamed*: give it its old name back (definition and
+    call sites), so that the rules that anchor on it still find it. Returns [(new path, old path)]."""
+    cur = {f['path'] for f in facts['fns']}
+    missing = [p for p in baseline if p not in cur and baseline[p]]
+    if not missing:
+        return []
+    unknown = [f for f in facts['fns'] if f['kind'] != 'Closure' and '{closure' not in f['dp'] and f['path'] not in baseline]
+    done = []
+    for m in missing:
+        mod = m.rsplit('::', 1)[0]
+        cands = [f for f in unknown if f['path'].rsplit('::', 1)[0] == mod and _sig(f) == baseline[m] and not f.get('exported')]
+        others = [x for x in missing if x != m and x.rsplit('::', 1)[0] == mod and baseline[x] == baseline[m]]
+        if len(cands) != 1 or others:
+            continue
+        f = cands[0]
+        old_path, new_path = m, f['path']
+        old_name = m.rsplit('::', 1)[1]
+        new_name = f.get('name')
+        f['path'], f['name'], f['renamed_from'] = old_path, old_name, new_path
+        unknown.remove(f)
+        for g in facts['fns']:
+            for blk in g['mir']['blocks']:
+                t = blk['term']
+                if t.get('k') in ('call', 'tailcall') and 'path' in t.get('f', {}):
+                    for tgt in (t['f'], t['f'].get('res') or {}):
+                        if tgt.get('dp') == f['dp'] or tgt.get('path') == new_path:
+                            tgt['path'] = old_path
+                            if 'name' in tgt:
+                                tgt['name'] = old_name
+        done.append((new_path, old_path))
+    return done
 
 
 def stable_name(dp):
@@ -152,6 +194,7 @@ def inline_unknown(facts, baseline=None):
         baseline = load_baseline()
     if not baseline:
         return facts, []
+    undo_renames(facts, baseline)
     fns = {f['dp']: f for f in facts['fns']}
     # identity = printed path (stable under reordering of impl blocks), not the numbered def path
     unknown = {dp for dp, f in fns.items() if f['kind'] != 'Closure' and f['path'] not in baseline and '{closure' not in dp}
